@@ -1,8 +1,7 @@
-\* C17, code as the property wants it (Dev = {}): every table of <= 4 symbols x alias chains x publicness x <= 3 DIEs in every order
-CONSTANTS N = 4
-          Addrs = {0, 1}
+\* C17: <= 4 symbols x alias chains x publicness x <= 3 DIEs in every order (Ideal); code as it is and single deviations with <= 3 symbols
+CONSTANTS Addrs = {0, 1}
           MaxDies = 3
-          Dev = {}
+          Plans <- PlanQuick
 SPECIFICATION Spec
-INVARIANTS Partition TypeOK
+INVARIANTS Ideal Faithful Witness TypeOK
 CHECK_DEADLOCK FALSE
